@@ -1,5 +1,6 @@
 import Pandora.Drv.Util
 import Pandora.Spec.C20
+import Pandora.Model.C20Net
 
 namespace Pandora.Drv.C20
 open Pandora.Drv Pandora.Model.C20 Pandora.Model.C20Conc Pandora.Spec.C20
@@ -147,11 +148,36 @@ def handleCore : Handler := fun input impl =>
         (modelObs, verdict ++ (if inPlace == impl then " [observation equals the in-place (shared map) model]" else ""))
   | _ => ("-", "fail:driver:unknown mode")
 
+/-- the model's count of calls that reach the separate reflection endpoint: the pool of `n` instances bound with a shared
+client pool of `sc`, every entry fired by the scheduled instance through that instance's stub (`stubAddr`) -/
+def modelStray (kv : List (String × String)) : Nat :=
+  let net : Net := { target := "127.0.0.1:1", reflectPort := 2 }
+  let n := (getN? kv "n").getD 1
+  let sc := if getS kv "mode" == "json" then (getN? kv "sc").getD 0 else 0
+  let es := (splitList (getS kv "e") ";").map parseEntry
+  let sched := if getS kv "run" == "sched" then parseSched (getS kv "sched") else es.map fun _ => 0
+  strayCalls net sc (runPool (parseTmo kv) (initPool n sc) sched es).2
+
+/-- with `rp=1` the observation ends with ` stray=<n>`: the model predicts its own count (0: every stub is dialled to the
+target, `C20_target`), the Spec demands 0 -/
+def handleNet : Handler := fun input impl =>
+  let kv := parseKV input
+  let (modelObs, verdict) := handleCore input impl
+  if getS kv "rp" == "1" && getS kv "mode" != "table" && !(impl.startsWith "ENV") then
+    let m := if modelObs == "-" then "-" else modelObs ++ " stray=" ++ toString (modelStray kv)
+    match judgeStray impl with
+    | some f => if crashKey impl |>.isSome then (m, verdict) else (m, f)
+    | none =>
+      if (verdict == "ok" || verdict.startsWith "skip:") && Spec.C20.kvGet impl "stray" != "0" && (crashKey impl).isNone then
+        (m, "fail:driver:no stray count in the observation")
+      else (m, verdict)
+  else (modelObs, verdict)
+
 def handle : Handler := fun input impl =>
   if inconclusive impl then
     -- judged with the expected deadline substituted: a failure of anything else is still a failure
-    let (_, verdict) := handleCore input (fixDl (parseTmo (parseKV input)) impl)
+    let (_, verdict) := handleNet input (fixDl (parseTmo (parseKV input)) impl)
     if verdict == "ok" then ("-", "skip:inconclusive-deadline") else ("-", verdict)
-  else handleCore input impl
+  else handleNet input impl
 
 end Pandora.Drv.C20
